@@ -488,7 +488,7 @@ LOCS = ["cur", "d1", "d2", "sys", "d3"]
 LOCDIR = {"cur": "src", "d1": "d1", "d2": "d2", "sys": "sysroot/include", "d3": "d3"}
 C_INNER = ["none", "next<>", 'next""', "g+next<>"]
 C_MAIN = ["one", "twice", "g-then-one", "one-g-one"]
-C_FORMS = ['"h.h"', "<h.h>", "HQ", "HA", '"h.h" JUNK', "<h.h> JUNK"]
+C_FORMS = ['"c10h.h"', "<c10h.h>", "HQ", "HA", '"c10h.h" JUNK', "<c10h.h> JUNK"]
 
 
 def c_header(loc, inner_line):
@@ -505,21 +505,21 @@ def c_files(subset, inner, chain_locs, gpos):
         if inner != "none":
             later = chain_locs if loc == "cur" else chain_locs[chain_locs.index(loc) + 1:]
             if any(l in subset for l in later):
-                line = "#include_next %s\n" % ("<h.h>" if "<>" in inner else '"h.h"')
+                line = "#include_next %s\n" % ("<c10h.h>" if "<>" in inner else '"c10h.h"')
                 if inner.startswith("g+") and gpos:
-                    line = "#include <g.h>\n" + line
-        files[LOCDIR[loc] + "/h.h"] = c_header(loc, line)
+                    line = "#include <c10g.h>\n" + line
+        files[LOCDIR[loc] + "/c10h.h"] = c_header(loc, line)
     if gpos:
-        files[LOCDIR[gpos] + "/g.h"] = "G_%s\n" % gpos
+        files[LOCDIR[gpos] + "/c10g.h"] = "G_%s\n" % gpos
     return files
 
 
 def c_main(shape, form):
     inc = "#include %s\n" % form
-    g = "#include <g.h>\n"
+    g = "#include <c10g.h>\n"
     body = {"one": inc, "twice": inc + "M1\n" + inc, "g-then-one": g + "M1\n" + inc,
             "one-g-one": inc + "M1\n" + g + "M2\n" + inc}[shape]
-    return '#define HQ "h.h"\n#define HA <h.h>\nM0\n' + body + "M9\n"
+    return '#define HQ "c10h.h"\n#define HA <c10h.h>\nM0\n' + body + "M9\n"
 
 
 def c_cases(tier):
@@ -573,7 +573,7 @@ def c_tokclass(t, chain_locs):
         loc = t[2:]
         if loc in LOCDIR:
             k = c_dirclass(LOCDIR[loc] + "/", chain_locs)
-            return {"B_": "", "E_": "end-of-", "G_": "g.h-in-", "R_": "re-entered-"}[t[:2]] + k
+            return {"B_": "", "E_": "end-of-", "G_": "c10g.h-in-", "R_": "re-entered-"}[t[:2]] + k
     return "main-text" if t[0] == "M" else t
 
 
@@ -702,9 +702,9 @@ def part_c(ctx):
     ctx.cover(c_cases=agg["n"], c_judged=agg["judged"], c_distinct_expected_streams=len(outcomes),
               oracle_disagreements=agg["disagree"], ref_rejected=agg["ref_rejected"], skipped_undefined=agg["undef"],
               traces_validated_against_impl=agg["judged"], c_process_runs=agg["runs"])
-    ctx.sample({"part": "C", "case": "h.h in {cur,d1,d3}, every copy chains with #include_next <h.h>",
+    ctx.sample({"part": "C", "case": "c10h.h in {cur,d1,d3}, every copy chains with #include_next <c10h.h>",
                 "files": c_files(("cur", "d1", "d3"), "next<>", ["d1", "d2", "sys", "d3"], None),
-                "main": c_main("twice", '"h.h"')})
+                "main": c_main("twice", '"c10h.h"')})
 
 
 # =====================================================================================================
